@@ -397,7 +397,8 @@ class ZipShapes(object):
 
     def cases(self, block, tier):
         for v in ('dup-inner', 'dup-dirs', 'corrupt-inner-next-to-member', 'corrupt-inner-deeper', 'corrupt-outer', 'no-members',
-                  'missing-file', 'inner-ZIP-uppercase', 'member-in-three-levels'):
+                  'missing-file', 'inner-ZIP-uppercase', 'member-in-three-levels', 'member-next-to-one-without-a-date',
+                  'member-next-to-inner-archive-with-a-dateless-member'):
             yield {'v': v}
 
     def run_case(self, case):
@@ -428,6 +429,22 @@ class ZipShapes(object):
             elif v == 'inner-ZIP-uppercase':
                 blob = zip_bytes([('INNER.ZIP', zip_bytes([('FOO-MIB.MIB', b'upper inner')]))])
                 allowed = ['upper inner']
+            elif v in ('member-next-to-one-without-a-date', 'member-next-to-inner-archive-with-a-dateless-member'):
+                # a member whose DOS time stamp is all zero (month 0, day 0): some archivers write that
+                buf = io.BytesIO()
+                with zipfile.ZipFile(buf, 'w') as z:
+                    zi = zipfile.ZipInfo('OTHER-MIB', date_time=(1980, 1, 1, 0, 0, 0))
+                    zi.date_time = (1980, 0, 0, 0, 0, 0)
+                    z.writestr(zi, b'dateless member')
+                dateless = buf.getvalue()
+                if v == 'member-next-to-one-without-a-date':
+                    buf2 = io.BytesIO(dateless)
+                    with zipfile.ZipFile(buf2, 'a') as z:
+                        z.writestr(zipfile.ZipInfo('FOO-MIB', date_time=ZIP_DT), b'good member')
+                    blob = buf2.getvalue()
+                else:
+                    blob = zip_bytes([('FOO-MIB', b'good member'), ('odd.zip', dateless)])
+                allowed = ['good member']
             elif v == 'member-in-three-levels':
                 blob = nested_zip('FOO-MIB.my', b'deep', 3, True)
                 allowed = ['deep']
@@ -463,6 +480,11 @@ class Urls(object):
             for p in paths:
                 for form in ('plain', 'triple-slash', 'netloc'):
                     yield {'scheme': s, 'path': p, 'form': form}
+            if s == '':
+                # plain paths (not URLs) holding characters that are URL syntax
+                for p in ('/tmp/mibs#2', '/tmp/my mibs', '/tmp/mibs;v=1', '/tmp/mibs?old', '/tmp/50%25off', '/tmp/a%20b.zip',
+                          'rel#1/x.zip'):
+                    yield {'scheme': s, 'path': p, 'form': 'plain'}
         else:
             for p in paths[:4]:
                 for port in (None, 8080):
@@ -533,8 +555,8 @@ class Urls(object):
                 vs.append(('%s|wrong-reader-kind' % sig, '%s -> %r' % (url, readers)))
             else:
                 u = readers[0]._url
-                if not u.startswith(s + '://mibs.example.org:') or not u.endswith(p) or \
-                        (case['port'] and ':%d/' % case['port'] not in u):
+                want_port = case['port'] or (443 if s == 'https' else 80)   # the default port of the scheme
+                if not u.startswith(s + '://mibs.example.org:') or not u.endswith(p) or ':%d/' % want_port not in u:
                     vs.append(('%s|parameters-not-carried' % sig, '%s -> %s' % (url, u)))
             return 'http', vs, 1
         # ftp / sftp
